@@ -61,7 +61,7 @@ out.append('''
 | C10 | 27 | edge matrices (4 families), scale factors | bounds / extents / centroid / area / volume / triangles / dump / to_mesh, copy, scaled (uniform, per axis), rezero, apply_transform, +, subscene, chain with identity edge | 95 s |
 | C11 | 46 | triangle coordinates, plane offset | section / slice_plane sub-spaces (axis planes, catalogue oblique planes), on-vertex / on-edge sign patterns as paths | 12 s |
 | C12 | 29 | ray origin / query point (triangle catalogue) and vice versa | ray-triangle hits = exhaustive definition; closest point; nearby_faces candidates superset | 32 s |
-| C13 | 55 | run counts (any magnitude), dense values, indices | rle/brle codecs, splits at dtype maximum, encodings interchangeable under 7 views (flips, swaps, cyclic transpose, flat, reshape); 5 known findings (mask / stripped / all-empty) | 20 s |
+| C13 | 75 | run counts (any magnitude), dense values, indices | rle/brle codecs, splits at dtype maximum, encodings interchangeable under 7 single views (flips, swaps, cyclic transpose, flat, reshape) and 5 stacked views (transpose-transpose, transpose-flip-transpose, flip-transpose-flip, transpose-transpose with a 2-cycle and a 3-cycle, transpose-reshape-transpose); 6 known findings (mask / stripped / all-empty) | 22 s |
 | C14 | 2 | rectangle size / offset (Real); cut positions, directions, list order (forked) | traversal rebuilds every loop (area, perimeter, vertex set exact); shapely values per configuration on catalogue coordinates under 9 similarity transforms | 103 s |
 | C15 | 19 | radii, heights, extents, offsets (Real); section count (forked 3..6) | box / cylinder / cone / annulus: topology, signed volume > 0 and = inscribed formula, bounds, box area + inertia, under none / translation / rotation / mirror placements; sphere-like shapes on catalogue grids; primitive edits | 77 s |
 | C17 | 12 | payload coordinate, written value (Real); read-state, copy route, side, edit site (forked) | other object unchanged after an edit at any of the enumerated sites, for Trimesh (3 variants), Box / Sphere / Cylinder, Path2D, PointCloud, Scene, VoxelGrid, ColorVisuals | 97 s |
@@ -173,7 +173,14 @@ for m in sorted(glob.glob('/verif/seeded/*/meta.json')):
     j=json.load(open(m))
     out.append("| %s | %s | %s |" % (os.path.basename(os.path.dirname(m)), esc(j['needs_to_manifest']), esc(j['detection'])))
 out.append('''
-Still missed in the quick tier: **C01-m1** (caught by the thorough tier only).  Everything else is caught by the quick
+Still missed in the quick tier: **C01-m1** (caught by the thorough tier only), and **C11-m3**, **C12-m3** (third round; missed
+by both tiers).  C11-m3 lives in `mesh_multiplane`, which the C11 check does not claim (section 9.3); C12-m3 needs a BATCH of
+rays in one call (an earlier ray with a candidate behind its origin, a later ray with two hits ahead) while every C12 ray unit
+casts a single symbolic ray - so the per-ray contract holds and the cross-ray misalignment of `distance` is invisible.  Both
+are honest gaps of the present units, recorded with the strengthening each needs in its meta.json; neither check was loosened.
+Third round (C05-m3, C06-m3, C13-m3, C19-m3): three caught as they were, C13-m3 (composition order of two lazy transposes)
+missed at first and caught after the encoding unit got stacked ('chain') views - which also drove the already known mask()
+defects through a second view (one new known-finding key).  Everything else is caught by the quick
 command of its property.  The reverse patches of the %d fixes (`/verif/regress/`) are caught by the quick tier as well.
 `seeded/VERIFIED.txt` is the log of the last re-verification on the final tree (all 26 reverse patches and 21 of the older
 seeded changes re-run; the newer ones were verified when they were added).
